@@ -283,22 +283,6 @@ theorem NoFut.execStats (props : JVal) : NoFut (execStats props) := by
   unfold Circus.Core.execStats
   ro
 
-theorem getBody_ne_future (w : Watcher) (keys : JVal) (tid : Nat) (x : String) : getBody w keys ≠ .ok (.future tid x) := by
-  unfold getBody
-  split
-  · intro h; cases h
-  · split <;> (intro h; cases h)
-theorem globalOptionsBody_ne_future (props : JVal) (tid : Nat) (x : String) :
-    globalOptionsBody props ≠ .ok (.future tid x) := by
-  unfold globalOptionsBody
-  simp only
-  split
-  · intro h; cases h
-  · split
-    · intro h; cases h
-    · split
-      · split <;> (intro h; cases h)
-      · intro h; cases h
 theorem NoFut.getBody (w : Watcher) (keys : JVal) : NoFut (pure (getBody w keys)) :=
   fun _ tid x => getBody_ne_future w keys tid x
 theorem NoFut.globalOptionsBody (props : JVal) : NoFut (pure (globalOptionsBody props)) :=
